@@ -107,6 +107,16 @@ CLAIMED["C01"] = dict(
     technique="TLC round-trip and stationarity on the Load/Serialize specification + real dumps/loads generations compared with the spec",
     design="7/C01")
 
+CLAIMED["C15"] = dict(
+    text="The listener machine registers p<digits> arrays under type tdm and evaluates such a name to the name; BBSerialize writes the tdm variable "
+         "block and leaves the references bare. TLC checks on every tdm script in the bound: arguments referring to p-arrays are delivered by name "
+         "and the data stay in the variables, other variables by value, by-value delivery outside tdm, p-names never among the parameters, template "
+         "iff {} parameters, and the round trip preserves operations and every variable. The real loader, parameters/is_template, variables and two "
+         "dumps/loads generations are compared with the specification.",
+    note="Trusted: TLC, renderer. Menu of 13 items, 2 tdm metadata variants + non-tdm control.",
+    technique="TLC invariants on the listener-machine/serialiser specification for tdm scripts + replay into real load/dumps",
+    design="7/C15")
+
 NOT_YET = {}
 
 
